@@ -17,7 +17,8 @@ Three layers.
 Outside the theorems (checked on the real code by the `fds` harness component): which calls acquire or release is a
 configured list; closing a live descriptor succeeds; the Go collector honours reachability.
 -/
-import Sonic.Lemmas.ResTable
+import Sonic.Lemmas.ResFds
+import Sonic.Lemmas.ResRefine
 import Sonic.Lemmas.LoopReg
 
 namespace Sonic.Props.C13
@@ -52,6 +53,27 @@ theorem C13_no_leak : ∀ f ∈ constructors, ∀ p ∈ f.paths, p.term.isFail =
   cases hr : run [] p.evs with
   | none => simp [hr] at hb
   | some live => exact ⟨live, rfl, by simpa [hr] using hb, hx⟩
+
+open Sonic.Model.Resources in
+/-- **… the descriptor table afterwards equals the table before.** For every failure path that hands nothing to its
+caller, and *every* set `T` of descriptors open beforehand: interpreting the path's descriptor events against `T` with
+the kernel's lowest-free allocation succeeds and ends with exactly the descriptors of `T` open again (this includes
+the k-th allocation failing with `EMFILE`, for every k: each acquisition has its own failure path in the table). -/
+theorem C13_no_leak_table : ∀ f ∈ constructors, ∀ p ∈ f.paths, p.term = .fail [] → ∀ T : List Nat,
+    ∃ T', runFds (T, []) p.evs = some (T', []) ∧ ∀ fd, fd ∈ T' ↔ fd ∈ T := by
+  intro f hf p hp ht T
+  obtain ⟨live, hrun, hsame, _⟩ := C13_no_leak f hf p hp (by rw [ht]; rfl)
+  have hl : live = [] := by
+    cases live with
+    | nil => rfl
+    | cons a r => rw [ht] at hsame; simp [sameSet, Term.ids] at hsame
+  rw [hl] at hrun
+  exact runFds_restores p.evs hrun T
+
+open Sonic.Model.Resources in
+/-- A successful `NewIO` on a table with holes takes the two lowest free numbers (non-vacuity of the table semantics). -/
+example : runFds ([0, 1, 2, 4], []) [.acquire 0 .fd "syscall.EpollCreate1", .call 0 "internal.NewEventFd" [(1, .fd)]]
+    = some ([5, 3, 0, 1, 2, 4], [(1, 5), (0, 3)]) := by decide
 
 /-- The exception really is a single path of `listener.accept`. -/
 theorem C13_handed_only_accept :
@@ -119,8 +141,8 @@ example : run [] [.acquire 0 .fd "owned at entry", .release 0 "syscall.Close", .
 /-- … and it does report a leak: `ConnectTCP` as it was before ee61305 (no Close when `connect` fails). -/
 example : Path.balanced { evs := [.call 6 "internal.CreateSocketTCP" [(0, .fd)], .step "connect" false], term := .fail [], line := 0 } = false := by decide
 
-/-- The table is not trivial: 23 functions, more than a hundred distinct paths, 11 Close methods. -/
-example : constructors.length = 23 ∧ closeOnce.length = 11 ∧ 100 ≤ (constructors.flatMap (·.paths)).length := by decide
+/-- The table is not trivial: more than twenty functions with more than a hundred distinct paths, a dozen Close methods. -/
+example : 20 ≤ constructors.length ∧ 10 ≤ closeOnce.length ∧ 100 ≤ (constructors.flatMap (·.paths)).length := by decide
 
 /-! ## 2. Close / create interleavings over the descriptor table -/
 
@@ -133,6 +155,23 @@ theorem C13_no_foreign_close (ops : List Op) (w : World) (h : run true {} ops = 
   intro e he
   have := (run_inv {} w ops inv_init h).log e he
   simp [CloseEv.foreign, this]
+
+open Sonic.Model.Resources in
+/-- **The property monitor accepts the model** (refinement): for every operation list the model can execute, the
+sequence of observations a process would make of it (numbers handed to each new object, descriptors open after every
+operation) is accepted by `Sonic.Spec.Resources`, the monitor the real library's traces are checked with. -/
+theorem C13_model_accepted (ops : List Op) (tr : List (Sonic.Spec.Resources.Op × Sonic.Spec.Resources.Obs))
+    (h : trace {} ops = some tr) : Sonic.Spec.Resources.accepts {} tr = true :=
+  trace_accepted ops {} {} tr inv_init rfl h
+
+/-- The monitor is not trivially accepting: the observation of the unrepaired listener (after `Close; new pipe; Close`
+the pipe's descriptor 5 is gone) is rejected as a foreign close; so is a Close that leaves the object's descriptor open. -/
+example : Sonic.Spec.Resources.accepts {} [(.new 1 "listener", .created [5] [5]), (.close 1, .closed []),
+    (.new 2 "pipe", .created [5, 6] [5, 6]), (.close 1, .closed [6])] = false := by decide
+example : (match Sonic.Spec.Resources.step { open_ := [(5, 1), (6, 2)] } (.close 1) (.closed [5, 6]) with
+    | .error k => k == "close-not-exact" | .ok _ => false) = true := by decide
+example : Sonic.Spec.Resources.accepts {} [(.new 1 "listener", .created [5] [5]), (.close 1, .closed []),
+    (.new 2 "pipe", .created [5, 6] [5, 6]), (.close 1, .closed [5, 6]), (.close 2, .closed [])] = true := by decide
 
 open Sonic.Model.Resources in
 /-- **Close is exact** (model form): the first `Close` of an object removes precisely its descriptors from the table,
